@@ -3,7 +3,7 @@
 import ast
 
 from ..astutil import attr_chain, cond_atoms, const_number, product_factors, signed_terms, walk_pc, pc_atoms
-from ..model import AnalysisIncomplete, norm_text
+from ..model import AnalysisIncomplete, norm_text, stmt_of
 from ..report import Finding, RuleResult
 from ..symexp import paths_of, is_component, is_synth, expand
 from . import register, A_NET, T_OPS, A_API
@@ -571,6 +571,104 @@ def arg_check_rule(ctx):
     return res
 
 
+def arg_entry_rule(ctx):
+    """ARG-ENTRY: the private samplers (`_sample` of any object) are reached from a *public* method
+    of a Distribution subclass only with counts that the method has validated on that path
+    (`is_positive_int`, the TypeError guard), or through another public entry point (`sample`,
+    `sample_and_log_prob`), which validates itself.  A public override that calls `self._sample`
+    directly hands un-validated counts to torch (empty results, RuntimeError instead of TypeError)."""
+    from ..symexp import paths_of, uwalk
+
+    p = ctx.p
+    dist = _dist(p)
+    res = RuleResult("ARG-ENTRY", "no public method of a distribution hands a count it has not validated to a private sampler: every `._sample(n, ..)` reached from a public method has n validated by is_positive_int on that path")
+    classes = [dist] + [c for c in p.subclasses_of(dist) if c is not dist]
+    seen_funcs = set()
+    n_sites = 0
+
+    def positive_int_checked(path):
+        ok = set()
+        for et, raw, pol in path.conds:
+            stack = [(et, pol)]
+            while stack:
+                t, pl = stack.pop()
+                if isinstance(t, ast.UnaryOp) and isinstance(t.op, ast.Not):
+                    stack.append((t.operand, not pl))
+                elif isinstance(t, ast.BoolOp) and ((isinstance(t.op, ast.And) and pl) or (isinstance(t.op, ast.Or) and not pl)):
+                    stack.extend((v, pl) for v in t.values)
+                elif pl and isinstance(t, ast.Call) and norm_text(t.func).split(".")[-1] == "is_positive_int" and len(t.args) == 1:
+                    r = p.resolve_expr(fi_cur[0].module, t.func) if not isinstance(t.func, ast.Name) or True else None
+                    if getattr(r, "name", None) == "is_positive_int" and getattr(getattr(r, "module", None), "name", "") == "nflows.utils.typechecks":
+                        ok.add(norm_text(t.args[0]))
+        return ok
+
+    fi_cur = [None]
+
+    def check_function(fi, cls, validated_params, depth, via):
+        nonlocal n_sites
+        fi_cur[0] = fi
+        params = [a for a, _ in fi.params()]
+        try:
+            paths = paths_of(fi.node)
+        except AnalysisIncomplete as ex:
+            res.undecide("%s.%s" % (cls.name, fi.name), str(ex))
+            return
+        for path in paths:
+            if path.kind == "raise":
+                continue
+            roots = [path.ret] if path.ret is not None else []
+            for eff in path.effects:
+                roots.extend(x for x in eff[2:] if isinstance(x, ast.AST))
+            valid = positive_int_checked(path) | set(validated_params)
+            for root in roots:
+                for n in uwalk(root):
+                    if not (isinstance(n, ast.Call) and isinstance(n.func, ast.Attribute)):
+                        continue
+                    name = n.func.attr
+                    count = n.args[0] if n.args else next((k.value for k in n.keywords if k.arg == "num_samples"), None)
+                    if name.startswith("_sample"):
+                        n_sites += 1
+                        if count is None:
+                            res.undecide("%s.%s" % (cls.name, fi.name), "a private sampler is called without a count (`%s`)" % norm_text(n)[:50])
+                            continue
+                        free = [x for x in uwalk(count) if isinstance(x, ast.Name) and x.id in params]
+                        bad = [x.id for x in free if x.id not in valid]
+                        if const_number(count) is not None and const_number(count) > 0:
+                            bad = []
+                        if bad:
+                            res.fail(Finding("ARG-ENTRY", fi.module, fi.qualname, fi.node, "%s%s.%s calls the private sampler `%s` with the count `%s` although `%s` has not been validated on this path (no `if not is_positive_int(%s): raise TypeError`): an invalid count (0, -3, 2.5) reaches torch instead of being rejected with a TypeError. Call the public `sample` or validate first" % (via, cls.name, fi.name, norm_text(n.func)[:40], norm_text(count)[:30], bad[0], bad[0]), construct="%s.%s -> %s" % (cls.name, fi.name, norm_text(n.func)[:40])))
+                        else:
+                            res.ok("%s%s.%s: `%s(%s, ..)` only with a validated count" % (via, cls.name, fi.name, norm_text(n.func)[:40], norm_text(count)[:30]))
+                    elif isinstance(n.func.value, ast.Name) and n.func.value.id == "self" and name.startswith("_") and not name.startswith("__") and depth < 3:
+                        # a private helper that was not expanded: follow it with what is validated here
+                        h = cls.lookup_method(name)
+                        if h is None or (h.qualname, tuple(sorted(valid))) in seen_funcs:
+                            continue
+                        hp = [a for a, _ in h.params()]
+                        vmap = set()
+                        for i, a in enumerate(n.args):
+                            if i < len(hp) and all(x.id in valid or x.id not in params for x in uwalk(a) if isinstance(x, ast.Name)) and any(isinstance(x, ast.Name) and x.id in params for x in uwalk(a)):
+                                vmap.add(hp[i])
+                        for k in n.keywords:
+                            if k.arg in hp and all(x.id in valid or x.id not in params for x in uwalk(k.value) if isinstance(x, ast.Name)) and any(isinstance(x, ast.Name) and x.id in params for x in uwalk(k.value)):
+                                vmap.add(k.arg)
+                        seen_funcs.add((h.qualname, tuple(sorted(valid))))
+                        cur = fi_cur[0]
+                        check_function(h, cls, vmap, depth + 1, via + "%s.%s -> " % (cls.name, fi.name))
+                        fi_cur[0] = cur
+
+    for cls in classes:
+        for name, fi in sorted(cls.methods.items()):
+            if name.startswith("_") or id(fi.node) in seen_funcs:
+                continue
+            seen_funcs.add(id(fi.node))
+            check_function(fi, cls, set(), 0, "")
+    if n_sites < 2:
+        raise AnalysisIncomplete("ARG-ENTRY: %d private-sampler call sites reachable from public methods (< 2: Distribution.sample has the unbatched and the batched ones)" % n_sites)
+    return res
+
+
+
 def batch_rule(ctx):
     """BATCH-COUNT / BATCH-CAT by partial evaluation (nfstatic/peval.py) of Distribution.sample
     for every (num_samples, batch_size) in a grid and with / without a context: `_sample` is an
@@ -759,9 +857,11 @@ register(
 
 register(
     "C18",
-    [arg_check_rule, batch_rule, sample_shape_rule, layout_rule],
+    [arg_check_rule, arg_entry_rule, batch_rule, sample_shape_rule, layout_rule],
     "ARG-CHECK: guard dominance in Distribution.log_prob (ValueError under context is not None and differing row counts, before "
-    "_log_prob) and Distribution.sample (TypeError unless typechecks.is_positive_int(num_samples / batch_size), before any use). "
+    "_log_prob) and, by partial evaluation with every kind of invalid count, Distribution.sample (TypeError before the sampler is "
+    "invoked). ARG-ENTRY: no public method of a Distribution subclass (Flow included) hands a count it has not validated with "
+    "is_positive_int to a private `_sample`; other public entry points are reached through `sample` / `sample_and_log_prob`. "
     "BATCH-CAT: on each batched path of sample the concatenation axis must be the sample axis -- 0 exactly when context is None, "
     "1 otherwise -- decided from the path condition or a conditional dim; a constant dim under a path condition that does not "
     "decide `context is None` is wrong for one of the two cases. BATCH-COUNT: normal-form comparison of the full-batch "
